@@ -3,7 +3,7 @@
 package main
 
 import (
-	"context"
+	"errors"
 	"fmt"
 	"sort"
 	"strconv"
@@ -29,6 +29,9 @@ type member struct {
 	once   sync.Once
 	asun   int32
 	np     int32
+	closeErr int32
+	gate     chan struct{} // when set: the next Write parks here (holding the multi transport's read lock)
+	entered  chan struct{}
 }
 
 func (m *member) Read() ([]byte, error) {
@@ -42,6 +45,14 @@ func (m *member) Read() ([]byte, error) {
 }
 func (m *member) Write(b []byte) error {
 	m.mu.Lock()
+	if g := m.gate; g != nil {
+		m.gate = nil
+		ent := m.entered
+		m.mu.Unlock()
+		close(ent)
+		<-g
+		m.mu.Lock()
+	}
 	m.log = append(m.log, append([]byte(nil), b...))
 	m.mu.Unlock()
 	atomic.AddUint64(&m.tx, uint64(len(b)))
@@ -50,6 +61,9 @@ func (m *member) Write(b []byte) error {
 func (m *member) Close() error {
 	atomic.StoreInt32(&m.closed, 1)
 	m.once.Do(func() { close(m.done) })
+	if atomic.LoadInt32(&m.closeErr) == 1 {
+		return errors.New("scripted close error")
+	}
 	return nil
 }
 func (m *member) RxBytesCounterValue() uint64 { return atomic.LoadUint64(&m.rx) }
@@ -85,11 +99,15 @@ type rd struct {
 	err error
 }
 
+type nicListener struct{ ch chan string }
+
+func (n *nicListener) Subscribe() <-chan string { return n.ch }
+
 type impl struct {
+	nic      *nicListener
 	dangling chan rd // a Read started by `readnone` that has not returned yet
 	tr      *multi.Transport
 	members map[int]*member
-	selCh   chan transport.TransportID
 	lu      *multi.LastUsedPoller
 	rr      *multi.RoundRobinPoller
 }
@@ -160,10 +178,14 @@ func (i *impl) newT(initial int, ids []int, polling bool) string {
 		cfg.SchedulerMode = multi.SchedulerModePolling
 		cfg.PollingScheduler = &multi.PollingScheduler{Poller: i.lu, Interval: time.Hour}
 	} else {
-		i.selCh = make(chan transport.TransportID)
-		ch := i.selCh
+		// the shipped NIC event subscriber: NIC name -> transport id; nic0 is unknown to the map (-> empty id), nic5/nic6 map to foreign ids
+		i.nic = &nicListener{ch: make(chan string)}
+		nm := map[string]transport.TransportID{}
+		for k := 1; k <= 6; k++ {
+			nm["nic"+strconv.Itoa(k)] = tid(k)
+		}
 		cfg.SchedulerMode = multi.SchedulerModeEvent
-		cfg.EventScheduler = &multi.EventScheduler{Subscriber: multi.EventSchedulerFunc(func(ctx context.Context) <-chan transport.TransportID { return ch })}
+		cfg.EventScheduler = &multi.EventScheduler{Subscriber: &multi.NICEventSubscriber{NICManager: i.nic, NICTransportID: nm}}
 	}
 	return guard(func() string {
 		t, err := multi.NewTransport(cfg)
@@ -242,11 +264,73 @@ func (i *impl) exec(op string) string {
 		// the id travels through two forwarding goroutines before transportIDLoop applies it under the lock;
 		// four identical sends guarantee the first has been applied (applying an id is idempotent)
 		return guard(func() string {
-			for k := 0; k < 4; k++ {
-				i.selCh <- tid(n(1))
+			for k := 0; k < 8; k++ {
+				i.nic.ch <- "nic" + w[1]
 			}
 			return "ok"
 		})
+	case "burstselect":
+		// a Write is parked inside the current member (so the transport's read lock is held and transportIDLoop cannot
+		// apply anything); a burst of NIC events arrives meanwhile; then the write completes.  Every event must still be
+		// applied, in order: the last one wins.
+		ids := parseIDs(w[1])
+		var cur *member
+		for _, m := range i.members {
+			cur = m
+			_ = cur
+		}
+		before := i.snapshot("log")
+		// arm the gate on every member (only the current one will be written to)
+		gate := make(chan struct{})
+		entered := make(chan struct{})
+		var once sync.Once
+		for _, m := range i.members {
+			m.mu.Lock()
+			m.gate, m.entered = gate, make(chan struct{})
+			ent := m.entered
+			m.mu.Unlock()
+			go func() { <-ent; once.Do(func() { close(entered) }) }()
+		}
+		wres := make(chan string, 1)
+		go func() { wres <- guard(func() string { i.tr.Write([]byte{0x77}); return "w" }) }()
+		select {
+		case <-entered:
+		case <-time.After(watchdog):
+			close(gate)
+			return "hang"
+		}
+		sent := make(chan struct{})
+		go func() {
+			for _, id := range ids {
+				i.nic.ch <- "nic" + strconv.Itoa(id)
+			}
+			close(sent)
+		}()
+		time.Sleep(5 * time.Millisecond)
+		close(gate)
+		for _, m := range i.members { // disarm unused gates
+			m.mu.Lock()
+			m.gate = nil
+			m.mu.Unlock()
+		}
+		select {
+		case <-sent:
+		case <-time.After(watchdog):
+			return "hang"
+		}
+		if r := <-wres; r != "w" {
+			return r
+		}
+		// barrier: ids that are no members travel the same pipeline and are ignored
+		for k := 0; k < 8; k++ {
+			i.nic.ch <- "nic0"
+		}
+		return i.routedTo(before, "log")
+	case "closeerr":
+		if m, ok := i.members[n(1)]; ok {
+			atomic.StoreInt32(&m.closeErr, 1)
+		}
+		return "ok"
 	case "write":
 		b := lp.UnHex(w[1])
 		before := i.snapshot("log")
@@ -416,6 +500,20 @@ func main() {
 							h.Violate(fmt.Sprintf("write went to %s, selected member is %d", out, current))
 						}
 						sig += "w"
+					case k == 6 && rng.Intn(2) == 0 && len(set) >= 2:
+						var ids []int
+						for j := 0; j < 4+rng.Intn(5); j++ {
+							ids = append(ids, set[rng.Intn(len(set))])
+						}
+						out := do("burstselect " + idsStr(ids))
+						if out != fmt.Sprintf("routed %d", current) {
+							h.Violate(fmt.Sprintf("write went to %s, selected member is %d", out, current))
+						}
+						current = ids[len(ids)-1]
+						if o := do("write 55"); o != fmt.Sprintf("routed %d", current) {
+							h.Violate(fmt.Sprintf("after a burst of scheduler events ending in %d the write went to: %s", current, o))
+						}
+						sig += "B"
 					case k == 6:
 						do([]string{"asun", "np"}[rng.Intn(2)])
 						sig += "d"
@@ -443,6 +541,9 @@ func main() {
 				_ = lastSeen
 				do("readnone")
 				do("counters")
+				if len(set) >= 2 && rng.Intn(2) == 0 {
+					do(fmt.Sprintf("closeerr %d", set[rng.Intn(len(set))])) // a member whose Close reports an error
+				}
 				out = do("close")
 				if out != "closed "+idsStr(set) {
 					h.Violate("Close did not close every member: " + out)
